@@ -89,6 +89,11 @@ CLAIMS = {
          "A discipline check, not a race proof: every Service/work field written outside configuration and initialisation is accessed only under the queue mutex or only atomically (two known "
          "findings: Shutdown clearing nc/inCh), the in-memory logger's buffer is used under its mutex, the mock store's map only inside transaction methods, and no closure handed on from a loop "
          "shares a re-assigned variable. Per-request objects are confined by contract and not analysed; user code and third-party modules are out of reach.", "DESIGN.md section 4 C16"),
+ "C20": ("who-may-call census of transaction writes + guard -> sentinel signature extraction with comparison operators + sibling agreement of the two middleware copies + value-flow of old values",
+         "Decides that every middleware apply handler reads and rewrites the resource inside one DB.Update closure, that the inapplicability guards (add len<idx, remove len<=idx, create on "
+         "existing/defaulted, change/remove on missing without default) return their sentinel before the write, that the two copies agree guard-for-guard, that 'absent' is decided by the map's "
+         "presence flag and old values are the looked-up values or the delete action, and that delete returns what its transaction read. Fold-equivalence over event histories and reopen are "
+         "not decided; 'a failing apply publishes nothing' is C08.O3.", "DESIGN.md section 4 C20"),
 }
 
 NA = {
